@@ -1944,6 +1944,15 @@ fn main() {
         }
         writeln!(out, "probe initorder {}", in_place as u8).unwrap();
     }
+    // which CR-CR behaviour does the real HtmlRenderer::add_text have?  ("\r\rx" with a CR highlight:
+    // two markers = a CR that follows a pending CR resolves the pending one as a lone CR)
+    {
+        let evs = vec![HighlightEvent::Source { start: 0, end: 3 }];
+        let marks = real_render(&evs, b"\r\rx", Some(7))
+            .map(|(html, _)| String::from_utf8_lossy(&html).matches("<span class=c7></span>").count())
+            .unwrap_or(0);
+        writeln!(out, "probe crcr {}", (marks == 2) as u8).unwrap();
+    }
     let mut n = 0usize;
     if args.get(2).map(|s| s == "--spec").unwrap_or(false) {
         let specs = std::fs::read_to_string(&args[3]).unwrap();
@@ -2025,6 +2034,62 @@ fn main() {
         };
         emit_render_attr(&mut out, &format!("R{i}"), crh, &src, &evs, mode);
         n += 1;
+    }
+    // 3b. the CR/LF family for the PER-LINE view: CRLF, lone CR, CR at chunk boundaries, CR CR LF, CR at
+    // EOF, CRLF inside spans and at span boundaries, mixed with LF -- each stream rendered BOTH without
+    // and with a carriage-return highlight (id 19: never used by the generated streams)
+    let ncr = if thorough { 6000 } else { 500 };
+    for i in 0..ncr {
+        let mut src = Vec::new();
+        for _ in 0..rng.range(1, 9) {
+            match rng.below(12) {
+                0 | 1 => src.extend_from_slice(b"\r\n"),
+                2 => src.push(b'\r'),
+                3 => src.push(b'\n'),
+                4 => src.extend_from_slice(b"\r\r\n"),
+                5 => src.extend_from_slice(b"\n\r"),
+                6 => src.extend_from_slice("é".as_bytes()),
+                7 => src.extend_from_slice(b"<&"),
+                _ => src.extend_from_slice(rng.pick(&WORDS).as_bytes()),
+            }
+        }
+        if rng.chance(1, 4) {
+            src.push(b'\r');
+        }
+        let evs = if rng.chance(1, 6) {
+            // every CR / LF at a chunk AND span boundary
+            let mut evs = Vec::new();
+            let mut a = 0usize;
+            let mut open = false;
+            for (k, b) in src.iter().enumerate() {
+                if *b == b'\r' || *b == b'\n' {
+                    if a < k + 1 {
+                        evs.push(HighlightEvent::Source { start: a, end: k + 1 });
+                        a = k + 1;
+                    }
+                    if open {
+                        evs.push(HighlightEvent::HighlightEnd);
+                        open = false;
+                    } else if rng.chance(1, 2) {
+                        evs.push(HighlightEvent::HighlightStart(Highlight(rng.below(12))));
+                        open = true;
+                    }
+                }
+            }
+            if a < src.len() {
+                evs.push(HighlightEvent::Source { start: a, end: src.len() });
+            }
+            if open {
+                evs.push(HighlightEvent::HighlightEnd);
+            }
+            evs
+        } else {
+            gen_stream(&mut rng, &src, 0)
+        };
+        let mode = if rng.chance(1, 5) { 1 } else { 0 };
+        emit_render_attr(&mut out, &format!("RC{i}a"), None, &src, &evs, mode);
+        emit_render_attr(&mut out, &format!("RC{i}b"), Some(19), &src, &evs, mode);
+        n += 2;
     }
     // 4. real highlighting
     let stmt_gg = gen::GrammarGen::new(&zoo::load("stmt").unwrap().grammar_json, zoo::read_zoo_file("stmt", "samples.json").as_deref());
